@@ -99,7 +99,17 @@ JudgeW2(r) ==
   IF r.open.o # "ok" \/ r.pre # r.base \/ Len(r.res) # Len(r.ops) THEN Info(r, "setup-or-open-failed")
   ELSE WalkW2(r, << <<>>, <<>> >>, r.base, 1)
 
-Judge(r) == CASE r.k = "rs" -> JudgeRS(r) [] r.k = "w" -> JudgeW(r) [] r.k = "w2" -> JudgeW2(r)
+\* C13: the same sequence on a backend used directly and through the Vfs enum: identical transcripts (results of every call, what
+\* an independent observer sees after every write / flush / drop), and the direct one is itself held to the handle contract
+FirstDiff(a, b) == IF Len(a) # Len(b) THEN "length" ELSE LET D == {i \in 1..Len(a) : a[i] # b[i]} IN
+                   IF D = {} THEN "-" ELSE LET i == CHOOSE x \in D : \A y \in D : x <= y IN
+                   IF a[i].o # b[i].o THEN "result" ELSE IF "n" \in DOMAIN a[i] /\ a[i].n # b[i].n THEN "count" ELSE "visible-content"
+JudgeWR(r) ==
+   LET d == r.direct  v == r.via
+       base == IF r.what = "w" THEN JudgeW(d) ELSE JudgeRS(d) IN
+   IF d = v THEN [i \in 1..Len(base) |-> IF base[i][1] = "ok" THEN <<"ok", "route:" \o r.what \o ":" \o r.be, base[i][Len(base[i])]>> ELSE base[i]]
+   ELSE << <<"BAD", "route", r.be, r.what, IF d.open # v.open THEN "open" ELSE FirstDiff(d.res, v.res)>> >>
+Judge(r) == CASE r.k = "rs" -> JudgeRS(r) [] r.k = "w" -> JudgeW(r) [] r.k = "w2" -> JudgeW2(r) [] r.k = "wr" -> JudgeWR(r)
 
 VARIABLES l
 Init == l = 1 /\ TLCSet(1, <<>>)
